@@ -190,7 +190,17 @@ def main(argv):
             lines.append("%s %d %d %s %s %s %s %s %s" % ((cid, seed, strat) + f + (choices,)))
             meta[cid] = (pid, p, small, seed, strat, choices)
     chk.log("%d programs x %d schedules" % (len(progs), len(scheds)))
-    impl_out = chk.run_cases(impl, lines, timeout=900) if impl else {}
+    # phase 1: three schedules of every program; the remaining schedules only run when phase 1 is clean (a broken
+    # implementation that spins for ever would otherwise cost a livelock time-out per case)
+    first = [l for l in lines if int(l.split()[0].rsplit(".", 1)[1]) < 3]
+    rest = [l for l in lines if int(l.split()[0].rsplit(".", 1)[1]) >= 3]
+    impl_out = chk.run_cases(impl, first, timeout=900) if impl else {}
+    bad1 = [l for l in impl_out.values() if l.startswith("DSCHED-STUCK") or l.startswith("CRASH") or "=0" in l.split(" | ")[-1].split(" ! ")[0]]
+    if impl and rest and not bad1:
+        impl_out.update(chk.run_cases(impl, rest, timeout=900))
+    elif bad1:
+        chk.log("phase 1 found %d failing cases; remaining %d cases skipped" % (len(bad1), len(rest)))
+        lines = first
     model_sets = {}
     states = trans = 0
     if model:
